@@ -112,3 +112,74 @@ Example c11_every_public_name_is_covered :
   forallb (fun n => existsb (fun p => (String.eqb n (fst (fst p))) || (String.eqb n (snd (fst p)))) public_pairs)
           modelled_names = true.
 Proof. vm_compute. reflexivity. Qed.
+
+(* ---- "each reader accepts EXACTLY the Kafka encoding of its type": the converse of the round trips above
+   (Codec/AcceptsProofs.v, Prim/PublicAcceptsProofs.v).  Whatever a strict reader accepts is the writer's output
+   for the value it returns followed by the unread rest; the lenient readers (boolean, the varints and the
+   varint-prefixed compact forms) are characterised exactly, and each leniency has a witness, so the split is
+   exact. *)
+From KioV Require Import Prim.Utf8 Prim.Varint Codec.AcceptsProofs Prim.PublicAcceptsProofs.
+
+Theorem c11_reader_accepts_exactly : forall ec p bs v rest,
+  strict_codec p = true -> bytes_ok bs = true ->
+  (run (dec_prim ec p) bs = Ok (v, rest) <->
+   typed_prim ec p v = true /\ exists enc, enc_prim p v = Ok enc /\ bs = enc ++ rest).
+Proof. exact prim_reader_accepts_exactly. Qed.
+Print Assumptions c11_reader_accepts_exactly.
+
+Theorem c11_boolean_reader_accepts : forall ec bs v rest,
+  run (dec_prim ec PBool) bs = Ok (v, rest) -> exists x, bs = x :: rest /\ v = VBool (negb (x =? 0)).
+Proof. exact bool_reader_accepts. Qed.
+
+Theorem c11_uvarint_reader_accepts : forall bs z rest,
+  run read_uvarint bs = Ok (z, rest) ->
+  exists pre, bs = pre ++ rest /\ varint_shape pre /\ (length pre <= 5)%nat /\
+              z = uv_val pre /\ 0 <= z < 2 ^ 35 /\
+              (forall tl, run read_uvarint (pre ++ tl) = Ok (z, tl)).
+Proof. exact uvarint_reader_accepts. Qed.
+
+Theorem c11_canonical_varint_is_writer_output : forall pre,
+  bytes_ok pre = true -> varint_shape pre -> uvarint_canonical pre ->
+  uvarint_bytes (uv_val pre) = pre /\ write_varint (uv_val pre) = Ok pre.
+Proof. exact uvarint_canonical_is_writer_output. Qed.
+
+Theorem c11_compact_reader_accepts : forall ec p bs v rest,
+  compact_codec p = true -> run (dec_prim ec p) bs = Ok (v, rest) ->
+  exists pre payload k,
+    bs = pre ++ payload ++ rest /\
+    varint_shape pre /\ (length pre <= 5)%nat /\ k = uv_val pre /\ 0 <= k < 2 ^ 35 /\
+    run read_uvarint (pre ++ payload ++ rest) = Ok (k, payload ++ rest) /\
+    ((k = 0 /\ v = VNull /\ payload = [] /\ pcodec_nullable p = true) \/
+     (k = zlen payload + 1 /\ v = blob_value p payload /\
+      (pcodec_is_str p = true -> utf8_valid payload = true))).
+Proof. exact compact_reader_accepts. Qed.
+
+Theorem c11_compact_reader_accepts_only_encodings_when_canonical : forall ec p bs v rest pre tl k,
+  compact_codec p = true -> bytes_ok bs = true -> run (dec_prim ec p) bs = Ok (v, rest) ->
+  bs = pre ++ tl -> run read_uvarint bs = Ok (k, tl) -> uvarint_canonical pre ->
+  exists enc, enc_prim p v = Ok enc /\ bs = enc ++ rest.
+Proof. exact compact_reader_accepts_only_encodings_when_canonical. Qed.
+Print Assumptions c11_compact_reader_accepts.
+Print Assumptions c11_compact_reader_accepts_only_encodings_when_canonical.
+
+(* the same about the public functions by name: on the 23 strict rows of the table, accepted input = the named
+   writer's output ++ rest; every other row has a concrete accepted input that is not the writer's output *)
+Theorem c11_public_reader_accepts_only_encodings : forall ec w r dom bs v rest,
+  In (w, r, dom) public_pairs -> public_strict_row w r = true -> bytes_ok bs = true ->
+  run (public_read ec r) bs = Ok (v, rest) ->
+  exists enc, public_write w v = Ok enc /\ bs = enc ++ rest.
+Proof. exact public_reader_accepts_only_encodings. Qed.
+Print Assumptions c11_public_reader_accepts_only_encodings.
+
+Theorem c11_public_lenient_rows_refuted : forall w r dom,
+  In (w, r, dom) public_pairs -> public_strict_row w r = false ->
+  exists bs v rest, bytes_ok bs = true /\ run (public_read [] r) bs = Ok (v, rest) /\
+    ~ (exists enc, public_write w v = Ok enc /\ bs = enc ++ rest).
+Proof. exact public_lenient_rows_refuted. Qed.
+
+Example c11_accepts_nonvacuous :
+  strict_codec (PStr false true) = true /\
+  run (dec_prim [0] (PStr false true)) [0; 2; 104; 105; 7] = Ok (VStr [104; 105], [7]) /\
+  run (dec_prim [0] (PStr false true)) [255; 254; 104; 105; 7] = Err EUnderflow /\
+  run (dec_prim [0; 1] PErrorCode) [0; 128] = Err EValue.
+Proof. vm_compute. repeat split; reflexivity. Qed.
